@@ -65,10 +65,7 @@ SimNext ==
   IF ~Quiet THEN Forced
   ELSE IF InWindow
   THEN \/ \E s \in Subs : SubRegister(s)
-       \/ /\ Window /\ (\A s \in Subs : sub[s].st = "resolved" => sub[s].kind \in {"heads", "events"})
-          /\ ( (\E c \in R({"empty", "fresh"}) : Store(c)) \/ SyncSend
-               \/ ((\A s \in Subs : sub[s].st = "resolved" => sub[s].kind = "heads") /\ Revert) )
-          /\ Det'
+       \/ ((\E c \in R({"empty", "fresh"}) : Store(c)) \/ SyncSend \/ Revert) /\ Det'
   ELSE External /\ Det'
 
 MBTInit == Init /\ hist = <<>> /\ steps = 0
